@@ -106,6 +106,13 @@ class Poly(dict):
         return " ".join(parts) or "0"
 
 
+def nz_sym(p):
+    """0/1 value of [p != 0]; constants fold"""
+    if p.is_const():
+        return Poly.const(1 if p.constval() != 0 else 0)
+    return Poly.sym(("neg", "nz", p.freeze()))          # kind "neg" = a 0/1 symbol (idempotent in products)
+
+
 def neg_sym(p):
     """0/1 value of [p < 0]; constants fold"""
     if p.is_const():
@@ -181,10 +188,10 @@ class Summariser:
                 return self.ev(e["c"][0], path)
             if op == "!":
                 v = self.ev(e["c"][0], path)
-                # !x for a 0/1 value
+                # !x for a 0/1 value, else 1 - [x != 0]
                 if self._boolean(v):
                     return Poly.const(1) - v
-                raise AnalysisBroken("negation of a non-boolean value")
+                return Poly.const(1) - nz_sym(v)
         if k == "BinaryOperator":
             op = e.get("op")
             if op == ",":
@@ -234,7 +241,7 @@ class Summariser:
         if k == "ConditionalOperator":
             c_ = self.ev(e["c"][0], path)
             if not self._boolean(c_):
-                raise AnalysisBroken("condition of ?: is not a comparison")
+                c_ = nz_sym(c_)
             a, b = self.ev(e["c"][1], path), self.ev(e["c"][2], path)
             return c_ * a + (Poly.const(1) - c_) * b
         if k == "UnaryOperator" and e.get("op") in ("++", "--"):
@@ -340,9 +347,7 @@ class Summariser:
                         raise
                     c = None
                 if c is not None and not self._boolean(c):
-                    if not self.lenient_if:
-                        raise AnalysisBroken("if condition is not a comparison")
-                    c = None
+                    c = nz_sym(c)              # truth of an integer: the 0/1 symbol [value != 0]
                 for val, branch in ((1, s["c"][1]), (0, s["c"][2] if len(s["c"]) > 2 else None)):
                     q = p.fork()
                     q.taken = list(getattr(p, "taken", [])) + [(s.get("i"), val)]
